@@ -1,8 +1,45 @@
 import Driver.Codec
+import LopdfModel.Model.Content
 namespace Lopdf.Driver.C14
 open Lopdf Lopdf.Codec
 
-/-- protocol operations of property C14: `none` = not an operation of this property. -/
-def handle (op : String) (args : List String) : Option String := none
+partial def parseOps : Nat → List String → Option (List Operation × List String)
+  | 0, ts => some ([], ts)
+  | n + 1, ts =>
+    match ts with
+    | oph :: k :: rest => do
+      let op ← bytesOfHex oph
+      let k ← k.toNat?
+      let (objs, rest') ← parseObj.parseN k rest
+      let (ops, rest'') ← parseOps n rest'
+      pure ({ operator := op, operands := objs } :: ops, rest'')
+    | _ => none
+
+def showOps (ops : List Operation) : String :=
+  toString ops.length ++ String.join (ops.map fun op =>
+    " " ++ hexTok op.operator ++ " " ++ toString op.operands.length ++ String.join (op.operands.map fun o => " " ++ showObj o))
+
+/-- `enc_content <n> (<op-hex> <k> <obj>*)*` -> `ok <hex>` ; `dec_content <hex>` -> `ok <ops>` | `err` | `panic` -/
+def handle (op : String) (args : List String) : Option String :=
+  match op with
+  | "enc_content" =>
+    some <| match args with
+    | n :: rest =>
+      match n.toNat?.bind (fun n => parseOps n rest) with
+      | some (ops, []) => "ok " ++ hexTok (encodeContent ops)
+      | _ => "bad-op"
+    | _ => "bad-op"
+  | "dec_content" =>
+    some <| match args with
+    | [h] =>
+      match bytesOfHex h with
+      | some bs =>
+        match decodeContent bs with
+        | .ok ops => "ok " ++ showOps ops
+        | .err _ => "err"
+        | .panic _ => "panic"
+      | none => "bad-op"
+    | _ => "bad-op"
+  | _ => none
 
 end Lopdf.Driver.C14
